@@ -562,26 +562,35 @@ pub trait Store<E: RangeEntry>: Sized {
     /// Returns `true` if the entry was inserted.
     /// Returns `false` if it was not inserted.
     fn put(&mut self, entry: E) -> Result<InsertOutcome, Self::Error> {
-        let prefix_entry = self.prefixes_of(entry.key())?;
-        // First we check if our entry is strictly greater than all parent elements.
-        // From the willow spec:
-        // "Remove all entries whose timestamp is strictly less than the timestamp of any other entry [..]
-        // whose path is a prefix of p." and then "remove all but those whose record has the greatest hash component".
-        // This is the contract of the `Ord` impl for `E::Value`.
-        for prefix_entry in prefix_entry {
-            let prefix_entry = prefix_entry?;
-            if entry.value() <= prefix_entry.value() {
-                return Ok(InsertOutcome::NotInserted);
-            }
-        }
-
-        // Now we remove all entries that have our key as a prefix and are older than our entry.
-        let removed = self.remove_prefix_filtered(entry.key(), |value| entry.value() >= value)?;
-
-        // Insert our new entry.
-        self.entry_put(entry)?;
-        Ok(InsertOutcome::Inserted { removed })
+        put_with_prefix_deletion(self, entry)
     }
+}
+
+/// The default implementation of [`Store::put`], as a free function so that a store that
+/// overrides `put` (for example to make the three steps atomic) can reuse it.
+pub(crate) fn put_with_prefix_deletion<E: RangeEntry, S: Store<E>>(
+    store: &mut S,
+    entry: E,
+) -> Result<InsertOutcome, S::Error> {
+    let prefix_entry = store.prefixes_of(entry.key())?;
+    // First we check if our entry is strictly greater than all parent elements.
+    // From the willow spec:
+    // "Remove all entries whose timestamp is strictly less than the timestamp of any other entry [..]
+    // whose path is a prefix of p." and then "remove all but those whose record has the greatest hash component".
+    // This is the contract of the `Ord` impl for `E::Value`.
+    for prefix_entry in prefix_entry {
+        let prefix_entry = prefix_entry?;
+        if entry.value() <= prefix_entry.value() {
+            return Ok(InsertOutcome::NotInserted);
+        }
+    }
+
+    // Now we remove all entries that have our key as a prefix and are older than our entry.
+    let removed = store.remove_prefix_filtered(entry.key(), |value| entry.value() >= value)?;
+
+    // Insert our new entry.
+    store.entry_put(entry)?;
+    Ok(InsertOutcome::Inserted { removed })
 }
 
 impl<E: RangeEntry, S: Store<E>> Store<E> for &mut S {
